@@ -1,7 +1,8 @@
 (** Executable model of the set-input rules of openfisca-core:
       openfisca_core/holders/helpers.py :: set_input_dispatch_by_period, set_input_divide_by_period
       openfisca_core/holders/holder.py  :: Holder.set_input, Holder._to_array, Holder._set,
-                                           Holder.get_array (memory storage only)
+                                           Holder.get_array, Holder.delete_arrays (one dictionary
+                                           period |-> array, whichever storage holds it)
       openfisca_core/data_storage/in_memory_storage.py :: get / put (eternal key folding)
       openfisca_core/simulations/simulation.py :: Simulation.set_input (the [end] short-cut),
                                            calculate_add of an input variable (sum over sub-periods)
@@ -163,6 +164,14 @@ Definition step_holder (v : var) (n : Z) (h : holder) (s : period * arr) : holde
 
 Definition run_steps (v : var) (n : Z) (h : holder) (steps : list (period * arr)) : holder :=
   fold_left (step_holder v n) steps h.
+
+(** Holder.delete_arrays / storage.delete: forget every stored period contained in [P]
+    (all of them when no period is given). *)
+Definition delete_arrays (v : var) (h : holder) (P : option period) : holder :=
+  match P with
+  | None => []
+  | Some p => filter (fun kv => negb (contains (storage_key v p) (fst kv))) h
+  end.
 
 (** Simulation.calculate_add for an input variable whose sub-periods are all known
     (no formula runs): element-wise sum of the stored arrays over
